@@ -77,9 +77,31 @@ Proof.
   - destruct b as [|p]; [discriminate|]. do 6 (destruct p as [p|p|]; try discriminate).
 Qed.
 
+Lemma strncaseeq_head c rest line : strncaseeq (c :: rest) line = true ->
+  exists b t, line = b :: t /\ to_upper b = to_upper c.
+Proof.
+  unfold strncaseeq. intros H. apply andb_true_iff in H as [Hl He].
+  destruct line as [|b t]; [simpl in Hl; discriminate|].
+  exists b, t. split; [reflexivity|]. simpl in He. apply andb_true_iff in He as [He _]. now apply N.eqb_eq in He.
+Qed.
+
+(** a Date: / From: / Message-Id: line is not a Received: line *)
+Lemma known_not_received l bit : known_hdr l = Some bit -> is_received l = false.
+Proof.
+  unfold known_hdr, is_received. intros H.
+  destruct (strncaseeq [82; 101; 99; 101; 105; 118; 101; 100; 58]%N l) eqn:Er; [|reflexivity].
+  destruct (strncaseeq_head _ _ _ Er) as (b & t & -> & Hb). exfalso.
+  destruct (strncaseeq [68; 97; 116; 101; 58]%N (b :: t)) eqn:E1.
+  { destruct (strncaseeq_head _ _ _ E1) as (b' & t' & E & Hb'). inversion E; subst. rewrite Hb in Hb'. vm_compute in Hb'. discriminate. }
+  destruct (strncaseeq [70; 114; 111; 109; 58]%N (b :: t)) eqn:E2.
+  { destruct (strncaseeq_head _ _ _ E2) as (b' & t' & E & Hb'). inversion E; subst. rewrite Hb in Hb'. vm_compute in Hb'. discriminate. }
+  destruct (strncaseeq [77; 101; 115; 115; 97; 103; 101; 45; 73; 100; 58]%N (b :: t)) eqn:E3; [|discriminate].
+  destruct (strncaseeq_head _ _ _ E3) as (b' & t' & E & Hb'). inversion E; subst. rewrite Hb in Hb'. vm_compute in Hb'. discriminate.
+Qed.
+
 Section Data.
 Variable o : oracles.
-Variable wfail : bool.
+Variable dc : dcfg.
 Variable trace : bytes.
 Variable T0 : bytes.                          (* the unread input when DATA started reading *)
 
@@ -124,7 +146,7 @@ Proof.
 Qed.
 
 Lemma body_loop_post fuel : forall r l msg sz seen d r',
-  I seen msg sz r l -> body_loop fuel o wfail r l msg sz seen = (d, r') -> post d r'.
+  I seen msg sz r l -> body_loop fuel o dc r l msg sz seen = (d, r') -> post d r'.
 Proof.
   induction fuel as [|f IH]; intros r l msg sz seen d r' HI H; cbn [body_loop] in H.
   { inversion H; subst. exact Logic.I. }
@@ -132,16 +154,17 @@ Proof.
   { inversion H; subst. apply dfinal_post; [exact HI|].
     apply orb_true_iff in Ex as [E|E]; [left; exact E|right; now apply N.ltb_lt]. }
   apply orb_false_iff in Ex as [End _].
-  destruct wfail; [inversion H; subst; exact Logic.I|].
+  destruct (d_chk dc && negb (d_dt dc) && has8 l); [inversion H; subst; exact Logic.I|].
+  destruct (d_wfail dc); [inversion H; subst; exact Logic.I|].
   destruct (dread r l) as [[d0|l'] r1] eqn:Ed.
   - inversion H; subst. destruct d; try exact Logic.I; unfold dread in Ed; destruct (net_read r) as [it rr]; destruct it; inversion Ed.
   - apply (IH _ _ _ _ _ _ _ (I_step _ _ _ _ _ _ _ HI End Ed) H).
 Qed.
 
 (** header loop: additionally the hop counter is the number of Received: header lines seen *)
-Lemma hdr_loop_post fuel : forall r l msg sz hops seen d r',
+Lemma hdr_loop_post fuel : forall r l msg sz hops hf seen d r',
   I seen msg sz r l -> hops = count_rcv seen -> hops <= MAXHOPS -> Forall (fun x => x <> []) seen ->
-  hdr_loop fuel o wfail r l msg sz hops seen = (d, r') ->
+  hdr_loop fuel o dc r l msg sz hops hf seen = (d, r') ->
   post d r'
   /\ match d with
      | D_loop l' seen' => count_rcv (seen' ++ [l']) = S MAXHOPS /\ Forall (fun x => x <> []) (seen' ++ [l'])
@@ -149,13 +172,14 @@ Lemma hdr_loop_post fuel : forall r l msg sz hops seen d r',
      | _ => True
      end.
 Proof.
-  induction fuel as [|f IH]; intros r l msg sz hops seen d r' HI Hh Hle Hne H; cbn [hdr_loop] in H.
+  induction fuel as [|f IH]; intros r l msg sz hops hf seen d r' HI Hh Hle Hne H; cbn [hdr_loop] in H.
   { inversion H; subst. split; exact Logic.I. }
   pose proof (hdr_part_all seen Hne) as Hhp.
   destruct (is_dot l || N.ltb (maxbytes o) sz || Nat.eqb (length l) 0 || Nat.ltb MAXHOPS hops) eqn:Ex.
-  - destruct l as [|b t].
+  - destruct (d_chk dc && (N.eqb (N.land hf 1) 0 || N.eqb (N.land hf 2) 0)); [inversion H; subst; split; exact Logic.I|].
+    destruct l as [|b t].
     + (* empty line: body follows *)
-      destruct wfail eqn:Ewf; [inversion H; subst; split; exact Logic.I|]. rewrite <- Ewf in H.
+      destruct (d_wfail dc); [inversion H; subst; split; exact Logic.I|].
       destruct (dread r []) as [[d0|l'] r1] eqn:Ed.
       * inversion H; subst. split; [|]; destruct d; try exact Logic.I; unfold dread in Ed; destruct (net_read r) as [it rr]; destruct it; inversion Ed.
       * assert (HI' : I (seen ++ [[]]) (msg ++ [LF]) (sz + 2)%N r1 l').
@@ -163,12 +187,13 @@ Proof.
           replace (sz + 0 + 2)%N with (sz + 2)%N in X by lia. exact X. }
         pose proof (body_loop_post _ _ _ _ _ _ _ _ HI' H) as Hp. split; [exact Hp|].
         (* the header part of what the body loop returns is [seen]; the body loop never reports a mail loop *)
-        assert (Hpre : forall fuel r l msg sz sn d r', body_loop fuel o wfail r l msg sz sn = (d, r') ->
+        assert (Hpre : forall fuel r l msg sz sn d r', body_loop fuel o dc r l msg sz sn = (d, r') ->
                   match d with D_eod _ _ s' => exists t, s' = sn ++ t | D_loop _ _ => False | _ => True end).
         { clear. induction fuel as [|f IH]; intros r l msg sz sn d r' H; cbn [body_loop] in H; [inversion H; exact Logic.I|].
           destruct (is_dot l || N.ltb (maxbytes o) sz).
           - inversion H; subst. unfold dfinal. destruct (N.ltb (maxbytes o) sz); [exact Logic.I|]. exists []. now rewrite app_nil_r.
-          - destruct wfail; [inversion H; subst; exact Logic.I|].
+          - destruct (d_chk dc && negb (d_dt dc) && has8 l); [inversion H; subst; exact Logic.I|].
+            destruct (d_wfail dc); [inversion H; subst; exact Logic.I|].
             destruct (dread r l) as [[d0|l'] r1] eqn:Ed.
             + inversion H; subst. apply dread_inl in Ed. destruct d; try exact Logic.I; contradiction.
             + apply IH in H. destruct d; try exact Logic.I; try contradiction. destruct H as (t & ->). exists (l :: t). now rewrite <- app_assoc. }
@@ -182,17 +207,26 @@ Proof.
       * unfold dfinal. destruct (N.ltb (maxbytes o) sz); [exact Logic.I|]. rewrite Hhp. lia.
   - apply orb_false_iff in Ex as [Ex _]. apply orb_false_iff in Ex as [Ex Elen]. apply orb_false_iff in Ex as [End _].
     assert (Hlne : l <> []) by (destruct l; [discriminate|congruence]).
-    fold (rcv_line l) in H.
+    destruct (if N.eqb (nth 0 l 0%N) DOT then Some (hf, false) else hdr_check dc hf l) as [[hf' flagr]|] eqn:Ehc.
+    2:{ inversion H; subst. split; exact Logic.I. }
+    (* the counting condition of the code is the one of the specification *)
+    assert (Hrcv : negb (N.eqb (nth 0 l 0%N) DOT) && flagr && is_received l = rcv_line l).
+    { unfold rcv_line. destruct (N.eqb (nth 0 l 0%N) DOT) eqn:Ed; [reflexivity|]. cbn [negb andb].
+      destruct flagr; [reflexivity|]. symmetry. cbn [andb].
+      unfold hdr_check in Ehc. destruct (negb (d_chk dc)); [inversion Ehc|]. destruct (has8 l); [discriminate|].
+      destruct (known_hdr l) as [bit|] eqn:Ek; [|inversion Ehc]. now apply (known_not_received l bit). }
+    rewrite Hrcv in H.
     destruct (rcv_line l && Nat.ltb MAXHOPS (if rcv_line l then S hops else hops)) eqn:Eloop.
     + inversion H; subst. split; [exact Logic.I|].
       apply andb_true_iff in Eloop as [Er El]. rewrite Er in El. apply Nat.ltb_lt in El.
       split.
       * rewrite count_rcv_app. unfold count_rcv at 2. simpl. rewrite Er. simpl. lia.
       * apply Forall_app. split; [exact Hne|]. constructor; [exact Hlne|constructor].
-    + destruct wfail eqn:Ewf; [inversion H; subst; split; exact Logic.I|].
+    + match type of H with context [if ?c then (D_reject 554 l, r) else _] => destruct c end; [inversion H; subst; split; exact Logic.I|].
+      destruct (d_wfail dc); [inversion H; subst; split; exact Logic.I|].
       destruct (dread r l) as [[d0|l'] r1] eqn:Ed.
       * inversion H; subst. split; destruct d; try exact Logic.I; unfold dread in Ed; destruct (net_read r) as [it rr]; destruct it; inversion Ed.
-      * apply (IH _ _ _ _ _ _ _ _ (I_step _ _ _ _ _ _ _ HI End Ed)) in H; [exact H| | |].
+      * apply (IH _ _ _ _ _ _ _ _ _ (I_step _ _ _ _ _ _ _ HI End Ed)) in H; [exact H| | |].
         -- rewrite count_rcv_app. unfold count_rcv at 2. simpl. destruct (rcv_line l); simpl; lia.
         -- destruct (rcv_line l) eqn:Er; [|lia]. simpl in Eloop. apply Nat.ltb_ge in Eloop. lia.
         -- apply Forall_app. split; [exact Hne|]. constructor; [exact Hlne|constructor].
@@ -201,7 +235,7 @@ Qed.
 End Data.
 
 (** DATA as a whole, started in reader state [r] *)
-Theorem data_loop_spec fuel o wfail r trace d r' : rstate_ok r -> data_loop fuel o wfail r trace = (d, r') ->
+Theorem data_loop_spec fuel o dc r trace d r' : rstate_ok r -> data_loop fuel o dc r trace = (d, r') ->
   match d with
   | D_eod msg sz seen =>
       (* the message is the trace header followed by exactly the client's data lines, in order, CRLF -> LF, leading dot removed *)
@@ -228,7 +262,7 @@ Proof.
   assert (HI : I trace (total r) [] trace 0%N r1 l).
   { unfold I, stored, wire. simpl. rewrite app_nil_r. repeat split; auto. }
   assert (HM : 0 <= MAXHOPS) by lia.
-  destruct (hdr_loop_post o wfail trace (total r) fuel _ _ _ _ _ _ _ _ HI eq_refl HM (Forall_nil _) H) as (Hp & Hh).
+  destruct (hdr_loop_post o dc trace (total r) fuel _ _ _ _ _ _ _ _ _ HI eq_refl HM (Forall_nil _) H) as (Hp & Hh).
   destruct d; try exact Logic.I.
   - cbn [post] in Hp. destruct Hp as (Hm & Hs & Hle & Ht & Hall).
     split; [exact Hm|]. split; [exact Ht|]. split; [exact Hall|]. split; [exact Hs|]. split; [|exact Hh].
